@@ -59,6 +59,14 @@ def run(ctx) -> None:
     from . import c01
 
     ctx.reuse("C09.slots", c01.pair_distribute, "C01.pair-distribute")
+    # transfer() hands the caller's keyword arguments (liquid class, tip, rack ID ...) to both records of a step, and the wash
+    # scheme it was given reaches the W record as the integer it names
+    from . import c07
+    from .common import concrete_devices as _devs
+
+    for dev in _devs(ctx):
+        ctx.reuse("C09.slots", c07.step_block, dev)
+    ctx.reuse("C09.sanitise", c07.wash_method)
     ctx.guard("C09.diti-switch", diti_switch)
     ctx.guard("C09.modes", modes)
 
